@@ -170,6 +170,10 @@ def punct_sep(text):
 def _deref(ex, c, a):
     p = a[0]
     v = p.get() if isinstance(p, Ptr) else p
+    # blanket impls `impl AsRef<U> for &T / &mut T`, `impl Deref for &T`: look through the extra reference level(s)
+    while isinstance(v, Ptr) and c.method in ('as_ref', 'as_mut', 'borrow', 'borrow_mut') and (c.self_ty or '').lstrip().startswith('&'):
+        p = v
+        v = p.get()
     if isinstance(v, Sym):
         v = ex.force_slot(p.cont, p.idx)
     if isinstance(v, Obj) and v.ty == 'Box':
@@ -1303,3 +1307,676 @@ def _parse_quote(ex, c, a):
     ts = ts_of(a[0]) if not isinstance(a[0], TS) else a[0]
     target = c.generics or ''
     return synprint.parse_template(ex, target, ts.toks)
+
+
+# ===========================================================================
+# more of std that a refactoring of the macro is likely to reach for
+# ===========================================================================
+
+def _items(ex, v):
+    t = deref_force(ex, v) if isinstance(v, Ptr) else ex.force(v)
+    if isinstance(t, Obj) and t.ty == 'Box':
+        t = t.fields[0]
+    if not isinstance(t, (VecObj, Punct)):
+        raise Unsupported('expected a Vec / slice / Punctuated, got ' + type(t).__name__)
+    return t
+
+
+def sort_key(x):
+    x = deref(x)
+    if isinstance(x, Ident):
+        x = x.name
+    if isinstance(x, (str, int, bool)):
+        return x
+    raise Unsupported('ordering of ' + type(x).__name__ + ' (symbolic or structured values are not ordered by the model)')
+
+
+@model('Vec::clear', 'Punctuated::clear')
+def _vec_clear(ex, c, a):
+    _items(ex, a[0]).items.clear()
+    return UNIT
+
+
+@model('Vec::swap_remove')
+def _vec_swap_remove(ex, c, a):
+    v = _items(ex, a[0]).items
+    i = a[1]
+    if i >= len(v):
+        raise PanicExc('Vec::swap_remove', 'index out of bounds')
+    x = v[i]
+    v[i] = v[-1]
+    v.pop()
+    return x
+
+
+@model('Vec::remove')
+def _vec_remove(ex, c, a):
+    v = _items(ex, a[0]).items
+    if a[1] >= len(v):
+        raise PanicExc('Vec::remove', 'index out of bounds')
+    return v.pop(a[1])
+
+
+@model('Vec::insert')
+def _vec_insert(ex, c, a):
+    v = _items(ex, a[0]).items
+    if a[1] > len(v):
+        raise PanicExc('Vec::insert', 'index out of bounds')
+    v.insert(a[1], a[2])
+    return UNIT
+
+
+@model('Vec::pop', 'Punctuated::pop')
+def _vec_pop(ex, c, a):
+    v = _items(ex, a[0]).items
+    if not v:
+        return NONE()
+    x = v.pop()
+    if c.segs and c.segs[-1] == 'Punctuated':
+        return Some(Obj('Pair', 'End', [x]))
+    return Some(x)
+
+
+@model('Vec::truncate')
+def _vec_truncate(ex, c, a):
+    v = _items(ex, a[0]).items
+    del v[a[1]:]
+    return UNIT
+
+
+@model('Vec::reverse', 'slice::reverse')
+def _vec_reverse(ex, c, a):
+    _items(ex, a[0]).items.reverse()
+    return UNIT
+
+
+@model('Vec::sort', 'slice::sort', 'slice::sort_unstable', 'Vec::sort_unstable')
+def _vec_sort(ex, c, a):
+    v = _items(ex, a[0]).items
+    v.sort(key=sort_key)
+    return UNIT
+
+
+@model('Vec::dedup')
+def _vec_dedup(ex, c, a):
+    v = _items(ex, a[0]).items
+    out = []
+    for x in v:
+        if not out or sort_key(out[-1]) != sort_key(x):
+            out.append(x)
+    v[:] = out
+    return UNIT
+
+
+@model('Vec::retain')
+def _vec_retain(ex, c, a):
+    v = _items(ex, a[0]).items
+    keep = []
+    for i in range(len(v)):
+        if ex.branch(ex.call_value(a[1], [Ptr(v, i)]), 'retain'):
+            keep.append(v[i])
+    v[:] = keep
+    return UNIT
+
+
+@model('Vec::extend_from_slice')
+def _vec_extend_from_slice(ex, c, a):
+    v = _items(ex, a[0]).items
+    v.extend(clone_val(x) for x in _items(ex, a[1]).items)
+    return UNIT
+
+
+@model('Vec::append')
+def _vec_append(ex, c, a):
+    v = _items(ex, a[0]).items
+    o = _items(ex, a[1]).items
+    v.extend(o)
+    o.clear()
+    return UNIT
+
+
+@model('slice::get', 'Vec::get', 'slice::get_mut')
+def _slice_get(ex, c, a):
+    v = _items(ex, a[0]).items
+    i = a[1]
+    if isinstance(i, int) and 0 <= i < len(v):
+        return Some(Ptr(v, i))
+    return NONE()
+
+
+@model('slice::contains', 'Vec::contains')
+def _slice_contains(ex, c, a):
+    v = _items(ex, a[0]).items
+    x = deref(a[1])
+    conds = [str_eq(x, y) for y in v]
+    if all(isinstance(k, bool) for k in conds):
+        return any(conds)
+    return z3.Or([k if not isinstance(k, bool) else z3.BoolVal(k) for k in conds])
+
+
+@model('Index::index', 'IndexMut::index_mut')
+def _index(ex, c, a):
+    v = _items(ex, a[0]).items
+    i = a[1]
+    if not (isinstance(i, int) and 0 <= i < len(v)):
+        raise PanicExc('index', 'index out of bounds')
+    return Ptr(v, i)
+
+
+@model('Iterator::rev')
+def _rev(ex, c, a):
+    it = into_iter(ex, a[0])
+    items = []
+    while True:
+        n = iter_next(ex, it)
+        if n.variant == 'None':
+            break
+        items.append(n.fields[0])
+    return Iter('list', list(reversed(items)), 'val')
+
+
+@model('Iterator::zip')
+def _zip(ex, c, a):
+    return Iter('zip', into_iter(ex, a[0]), into_iter(ex, a[1]))
+
+
+@model('Iterator::chain')
+def _chain(ex, c, a):
+    return Iter('chain', into_iter(ex, a[0]), into_iter(ex, a[1]))
+
+
+@model('Iterator::skip')
+def _skip(ex, c, a):
+    it = into_iter(ex, a[0])
+    for _ in range(a[1]):
+        if iter_next(ex, it).variant == 'None':
+            break
+    return it
+
+
+@model('Iterator::take')
+def _take_it(ex, c, a):
+    it = into_iter(ex, a[0])
+    items = []
+    for _ in range(a[1]):
+        n = iter_next(ex, it)
+        if n.variant == 'None':
+            break
+        items.append(n.fields[0])
+    return Iter('list', items, 'val')
+
+
+@model('Iterator::count')
+def _count(ex, c, a):
+    it = into_iter(ex, a[0])
+    k = 0
+    while iter_next(ex, it).variant != 'None':
+        k += 1
+    return k
+
+
+@model('Iterator::last')
+def _it_last(ex, c, a):
+    it = into_iter(ex, a[0])
+    last = NONE()
+    while True:
+        n = iter_next(ex, it)
+        if n.variant == 'None':
+            return last
+        last = n
+
+
+@model('Iterator::nth')
+def _it_nth(ex, c, a):
+    it = into_iter(ex, a[0])
+    for _ in range(a[1]):
+        if iter_next(ex, it).variant == 'None':
+            return NONE()
+    return iter_next(ex, it)
+
+
+@model('Iterator::position')
+def _position(ex, c, a):
+    it = into_iter(ex, a[0])
+    k = 0
+    while True:
+        n = iter_next(ex, it)
+        if n.variant == 'None':
+            return NONE()
+        if ex.branch(ex.call_value(a[1], [n.fields[0]]), 'position'):
+            return Some(k)
+        k += 1
+
+
+@model('Iterator::for_each')
+def _for_each(ex, c, a):
+    it = into_iter(ex, a[0])
+    while True:
+        n = iter_next(ex, it)
+        if n.variant == 'None':
+            return UNIT
+        ex.call_value(a[1], [n.fields[0]])
+
+
+@model('Iterator::fold')
+def _fold(ex, c, a):
+    it = into_iter(ex, a[0])
+    acc = a[1]
+    while True:
+        n = iter_next(ex, it)
+        if n.variant == 'None':
+            return acc
+        acc = ex.call_value(a[2], [acc, n.fields[0]])
+
+
+@model('Iterator::flat_map')
+def _flat_map(ex, c, a):
+    it = into_iter(ex, a[0])
+    out = []
+    while True:
+        n = iter_next(ex, it)
+        if n.variant == 'None':
+            break
+        inner = into_iter(ex, ex.call_value(a[1], [n.fields[0]]))
+        while True:
+            m = iter_next(ex, inner)
+            if m.variant == 'None':
+                break
+            out.append(m.fields[0])
+    return Iter('list', out, 'val')
+
+
+@model('Iterator::partition')
+def _partition(ex, c, a):
+    it = into_iter(ex, a[0])
+    yes, no = [], []
+    while True:
+        n = iter_next(ex, it)
+        if n.variant == 'None':
+            break
+        (yes if ex.branch(ex.call_value(a[1], [new_cell(n.fields[0])]), 'partition') else no).append(n.fields[0])
+    return Obj('tuple', None, [VecObj(yes), VecObj(no)])
+
+
+@model('Iterator::unzip')
+def _unzip(ex, c, a):
+    it = into_iter(ex, a[0])
+    xs, ys = [], []
+    while True:
+        n = iter_next(ex, it)
+        if n.variant == 'None':
+            break
+        xs.append(n.fields[0].fields[0])
+        ys.append(n.fields[0].fields[1])
+    return Obj('tuple', None, [VecObj(xs), VecObj(ys)])
+
+
+_old_iter_next = iter_next
+
+
+def iter_next(ex, it):  # noqa: F811  (extends the protocol with zip / chain)
+    it0 = deref(it)
+    if it0.kind == 'zip':
+        x = _old_iter_next(ex, it0.a)
+        if x.variant == 'None':
+            return x
+        y = _old_iter_next(ex, it0.b)
+        if y.variant == 'None':
+            return y
+        return Some(Obj('tuple', None, [x.fields[0], y.fields[0]]))
+    if it0.kind == 'chain':
+        x = _old_iter_next(ex, it0.a)
+        if x.variant == 'Some':
+            return x
+        return _old_iter_next(ex, it0.b)
+    return _old_iter_next(ex, it)
+
+
+MODELS['Iterator::next'] = lambda ex, c, a: iter_next(ex, a[0])
+
+
+@model('Option::take')
+def _opt_take(ex, c, a):
+    p = a[0]
+    v = deref_force(ex, p)
+    old = Obj('Option', v.variant, list(v.fields))
+    v.variant = 'None'
+    v.fields = []
+    return old
+
+
+@model('Option::filter')
+def _opt_filter(ex, c, a):
+    v = ex.force(a[0])
+    if v.variant == 'Some' and ex.branch(ex.call_value(a[1], [Ptr(v.fields, 0)]), 'filter'):
+        return v
+    return NONE()
+
+
+@model('Option::ok_or', 'Option::ok_or_else')
+def _opt_ok_or(ex, c, a):
+    v = ex.force(a[0])
+    if v.variant == 'Some':
+        return Ok(v.fields[0])
+    return Err(a[1] if c.method == 'ok_or' else ex.call_value(a[1], []))
+
+
+@model('Option::map_or')
+def _opt_map_or(ex, c, a):
+    v = ex.force(a[0])
+    return ex.call_value(a[2], [v.fields[0]]) if v.variant == 'Some' else a[1]
+
+
+@model('Option::map_or_else')
+def _opt_map_or_else(ex, c, a):
+    v = ex.force(a[0])
+    return ex.call_value(a[2], [v.fields[0]]) if v.variant == 'Some' else ex.call_value(a[1], [])
+
+
+@model('Option::zip')
+def _opt_zip(ex, c, a):
+    x, y = ex.force(a[0]), ex.force(a[1])
+    if x.variant == 'Some' and y.variant == 'Some':
+        return Some(Obj('tuple', None, [x.fields[0], y.fields[0]]))
+    return NONE()
+
+
+@model('Option::insert', 'Option::replace')
+def _opt_insert(ex, c, a):
+    v = deref_force(ex, a[0])
+    old = Obj('Option', v.variant, list(v.fields))
+    v.variant = 'Some'
+    v.fields = [a[1]]
+    return Ptr(v.fields, 0) if c.method == 'insert' else old
+
+
+@model('Result::ok')
+def _res_ok(ex, c, a):
+    v = ex.force(a[0])
+    return Some(v.fields[0]) if v.variant == 'Ok' else NONE()
+
+
+@model('Result::map', 'Result::and_then')
+def _res_map(ex, c, a):
+    v = ex.force(a[0])
+    if v.variant == 'Ok':
+        r = ex.call_value(a[1], [v.fields[0]])
+        return Ok(r) if c.method == 'map' else r
+    return v
+
+
+@model('Result::map_err')
+def _res_map_err(ex, c, a):
+    v = ex.force(a[0])
+    if v.variant == 'Err':
+        return Err(ex.call_value(a[1], [v.fields[0]]))
+    return v
+
+
+@model('Result::unwrap_or', 'Result::unwrap_or_default')
+def _res_unwrap_or(ex, c, a):
+    v = ex.force(a[0])
+    if v.variant == 'Ok':
+        return v.fields[0]
+    if c.method == 'unwrap_or':
+        return a[1]
+    raise Unsupported('unwrap_or_default')
+
+
+@model('str::starts_with', 'str::ends_with', 'str::contains')
+def _str_pred(ex, c, a):
+    s_, p = deref(a[0]), deref(a[1])
+    if isinstance(s_, Ident):
+        s_ = ident_string(s_)
+    if isinstance(s_, str) and isinstance(p, str):
+        return {'starts_with': s_.startswith(p), 'ends_with': s_.endswith(p), 'contains': p in s_}[c.method]
+    zs = s_ if isinstance(s_, z3.ExprRef) else z3.StringVal(s_)
+    zp = p if isinstance(p, z3.ExprRef) else z3.StringVal(p)
+    return {'starts_with': z3.PrefixOf(zp, zs), 'ends_with': z3.SuffixOf(zp, zs), 'contains': z3.Contains(zs, zp)}[c.method]
+
+
+@model('str::len', 'String::len')
+def _str_len(ex, c, a):
+    s_ = deref(a[0])
+    return len(s_) if isinstance(s_, str) else z3.Length(s_)
+
+
+@model('str::is_empty', 'String::is_empty')
+def _str_is_empty(ex, c, a):
+    s_ = deref(a[0])
+    return (len(s_) == 0) if isinstance(s_, str) else (z3.Length(s_) == 0)
+
+
+@model('String::new')
+def _string_new(ex, c, a):
+    return ''
+
+
+@model('String::push_str', 'String::push')
+def _push_str(ex, c, a):
+    p = a[0]
+    cur = p.get()
+    add = deref(a[1])
+    p.set(concat_parts([cur, add]))
+    return UNIT
+
+
+@model('str::to_owned', 'str::to_string', 'ToOwned::to_owned', 'String::from')
+def _str_to_owned(ex, c, a):
+    v = deref(a[0])
+    if isinstance(v, (str, z3.ExprRef)):
+        return v
+    return clone_val(v)
+
+
+@model('str::to_lowercase', 'str::to_uppercase', 'str::to_ascii_lowercase', 'str::to_ascii_uppercase')
+def _str_case(ex, c, a):
+    v = deref(a[0])
+    if isinstance(v, str):
+        return v.lower() if 'lower' in c.method else v.upper()
+    raise Unsupported(c.method + ' of a symbolic string')
+
+
+# ordered collections are deterministic: modelled as sorted lists of concrete keys
+@model('BTreeSet::new', 'BTreeMap::new')
+def _btree_new(ex, c, a):
+    return Obj('BTree', 'Map' if 'Map' in c.text else 'Set', [[]])
+
+
+@model('BTreeSet::insert')
+def _btreeset_insert(ex, c, a):
+    t = deref(a[0])
+    k = sort_key(a[1])
+    keys = [sort_key(x) for x in t.fields[0]]
+    if k in keys:
+        return False
+    t.fields[0].append(a[1])
+    t.fields[0].sort(key=sort_key)
+    return True
+
+
+@model('BTreeSet::contains')
+def _btreeset_contains(ex, c, a):
+    t = deref(a[0])
+    return sort_key(a[1]) in [sort_key(x) for x in t.fields[0]]
+
+
+@model('BTreeSet::iter', 'BTreeSet::into_iter')
+def _btreeset_iter(ex, c, a):
+    t = deref(a[0])
+    lst = t.fields[0]
+    return Iter('list', lst, 'ref' if c.method == 'iter' else 'val')
+
+
+@model('BTreeSet::len', 'BTreeMap::len')
+def _btree_len(ex, c, a):
+    return len(deref(a[0]).fields[0])
+
+
+_old_into_iter = into_iter
+
+
+def into_iter(ex, v):  # noqa: F811
+    t = deref(v)
+    if isinstance(t, Obj) and t.ty == 'BTree':
+        if t.variant == 'Map':
+            return Iter('list', [Obj('tuple', None, [k, val]) for k, val in t.fields[0]], 'val')
+        return Iter('list', t.fields[0], 'ref' if isinstance(v, Ptr) else 'val')
+    if isinstance(t, SetObj):
+        ex.notes.setdefault('impure', []).append('iteration over a hash-ordered collection (HashSet)')
+        raise Unsupported('IMPURE primitive reached (iteration over a hash-ordered collection)')
+    return _old_into_iter(ex, v)
+
+
+MODELS['IntoIterator::into_iter'] = lambda ex, c, a: into_iter(ex, a[0])
+
+
+@model('BTreeMap::insert')
+def _btreemap_insert(ex, c, a):
+    t = deref(a[0])
+    k = sort_key(a[1])
+    for i, (kk, vv) in enumerate(t.fields[0]):
+        if sort_key(kk) == k:
+            t.fields[0][i] = (kk, a[2])
+            return Some(vv)
+    t.fields[0].append((a[1], a[2]))
+    t.fields[0].sort(key=lambda kv: sort_key(kv[0]))
+    return NONE()
+
+
+@model('BTreeMap::get', 'BTreeMap::contains_key')
+def _btreemap_get(ex, c, a):
+    t = deref(a[0])
+    k = sort_key(a[1])
+    for kk, vv in t.fields[0]:
+        if sort_key(kk) == k:
+            return Some(new_cell(vv)) if c.method == 'get' else True
+    return NONE() if c.method == 'get' else False
+
+
+@model('BTreeMap::values', 'BTreeMap::into_values', 'BTreeMap::keys', 'BTreeMap::into_keys')
+def _btreemap_values(ex, c, a):
+    t = deref(a[0])
+    idx = 1 if 'values' in c.method else 0
+    return Iter('list', [kv[idx] for kv in t.fields[0]], 'val')
+
+
+@model('HashMap::new', 'HashSet::new')
+def _hash_new(ex, c, a):
+    if 'HashSet' in c.text:
+        return SetObj([])
+    return Obj('HashMap', None, [[]])
+
+
+@model('HashMap::insert')
+def _hashmap_insert(ex, c, a):
+    t = deref(a[0])
+    k = sort_key(a[1])
+    for i, (kk, vv) in enumerate(t.fields[0]):
+        if sort_key(kk) == k:
+            t.fields[0][i] = (kk, a[2])
+            return Some(vv)
+    t.fields[0].append((a[1], a[2]))
+    return NONE()
+
+
+@model('HashMap::get', 'HashMap::contains_key')
+def _hashmap_get(ex, c, a):
+    t = deref(a[0])
+    k = sort_key(a[1])
+    for kk, vv in t.fields[0]:
+        if sort_key(kk) == k:
+            return Some(new_cell(vv)) if c.method == 'get' else True
+    return NONE() if c.method == 'get' else False
+
+
+@model('Ord::cmp', 'PartialOrd::partial_cmp')
+def _cmp(ex, c, a):
+    x, y = sort_key(a[0]), sort_key(a[1])
+    o = Obj('Ordering', 'Less' if x < y else ('Greater' if x > y else 'Equal'), [])
+    return o if c.method == 'cmp' else Some(o)
+
+
+@model('PartialOrd::lt', 'PartialOrd::le', 'PartialOrd::gt', 'PartialOrd::ge')
+def _ord_ops(ex, c, a):
+    x, y = sort_key(a[0]), sort_key(a[1])
+    return {'lt': x < y, 'le': x <= y, 'gt': x > y, 'ge': x >= y}[c.method]
+
+
+@model('Punctuated::push_punct')
+def _push_punct(ex, c, a):
+    deref(a[0]).trailing = True
+    return UNIT
+
+
+@model('Punctuated::into_iter', 'Vec::into_iter')
+def _into_iter_val(ex, c, a):
+    return into_iter(ex, a[0])
+
+
+@model('Punctuated::extend')
+def _punct_extend(ex, c, a):
+    tgt = deref(a[0])
+    it = into_iter(ex, a[1])
+    while True:
+        n = iter_next(ex, it)
+        if n.variant == 'None':
+            return UNIT
+        tgt.items.append(n.fields[0])
+
+
+@model('Path::is_ident')
+def _path_is_ident(ex, c, a):
+    p = deref_force(ex, a[0])
+    segs = ex.force_slot(p.fields, p.names.index('segments'))
+    lc = ex.force_slot(p.fields, p.names.index('leading_colon'))
+    if lc.variant == 'Some' or len(segs.items) != 1:
+        return False
+    seg = ex.force_slot(segs.items, 0)
+    args = ex.force_slot(seg.fields, seg.names.index('arguments'))
+    if args.variant != 'None':
+        return False
+    return str_eq(ex.force_slot(seg.fields, seg.names.index('ident')), a[1])
+
+
+@model('Path::get_ident')
+def _path_get_ident(ex, c, a):
+    p = deref_force(ex, a[0])
+    segs = ex.force_slot(p.fields, p.names.index('segments'))
+    lc = ex.force_slot(p.fields, p.names.index('leading_colon'))
+    if lc.variant == 'Some' or len(segs.items) != 1:
+        return NONE()
+    seg = ex.force_slot(segs.items, 0)
+    if ex.force_slot(seg.fields, seg.names.index('arguments')).variant != 'None':
+        return NONE()
+    return Some(Ptr(seg.fields, seg.names.index('ident')))
+
+
+@model('Generics::lifetimes', 'Generics::type_params', 'Generics::const_params',
+       'Generics::lifetimes_mut', 'Generics::type_params_mut', 'Generics::const_params_mut')
+def _generics_filter(ex, c, a):
+    g = deref_force(ex, a[0])
+    params = ex.force_slot(g.fields, g.names.index('params'))
+    want = {'lifetimes': 'Lifetime', 'type_params': 'Type', 'const_params': 'Const'}[c.method.replace('_mut', '')]
+    out = []
+    for i in range(len(params.items)):
+        gp = ex.force_slot(params.items, i)
+        if gp.variant == want:
+            out.append(Ptr(gp.fields, 0))
+    return Iter('list', out, 'val')
+
+
+@model('String::insert', 'String::insert_str')
+def _string_insert(ex, c, a):
+    p = a[0]
+    cur = p.get()
+    idx, add = a[1], deref(a[2])
+    if isinstance(add, int):
+        add = chr(add)
+    if isinstance(cur, str) and isinstance(add, str):
+        p.set(cur[:idx] + add + cur[idx:])
+    elif idx == 0:
+        p.set(concat_parts([add, cur]))
+    else:
+        raise Unsupported('String::insert into a symbolic string at a position other than 0')
+    return UNIT
